@@ -124,7 +124,8 @@ func (k Keeper) doubleTradeExactInputForOutput(ctx sdk.Context, input types.Inpu
 		return sdkmath.ZeroInt(), err
 	}
 
-	if err := k.swapCoins(ctx, inputAddress, outputAddress, input.Coin, standardCoin); err != nil {
+	// the intermediate standard coin goes back to the sender, who pays it into the second leg
+	if err := k.swapCoins(ctx, inputAddress, inputAddress, input.Coin, standardCoin); err != nil {
 		return sdkmath.ZeroInt(), err
 	}
 
@@ -256,7 +257,8 @@ func (k Keeper) doubleTradeInputForExactOutput(ctx sdk.Context, input types.Inpu
 		return sdkmath.ZeroInt(), err
 	}
 
-	if err := k.swapCoins(ctx, inputAddress, outputAddress, soldTokenCoin, soldStandardCoin); err != nil {
+	// the intermediate standard coin goes back to the sender, who pays it into the second leg
+	if err := k.swapCoins(ctx, inputAddress, inputAddress, soldTokenCoin, soldStandardCoin); err != nil {
 		return sdkmath.ZeroInt(), err
 	}
 	if err := k.swapCoins(ctx, inputAddress, outputAddress, soldStandardCoin, output.Coin); err != nil {
